@@ -21,6 +21,7 @@ type renderer struct {
 	sb   strings.Builder
 	line int
 	ind  int
+	min  bool // binary operands of a binary operator get parentheses only where the documented precedence and left associativity require them
 	hdr  int // >0 while rendering an if/for header: map literals get parentheses (a func literal must not: `x := (func() {..})` does not make x visible inside the literal, `x := func() {..}` does)
 }
 
@@ -31,11 +32,11 @@ func (r *renderer) header(e *Node) {
 }
 
 // leftmost returns the node whose text starts the rendering of e.
-func leftmost(e *Node) *Node {
+func (r *renderer) leftmost(e *Node) *Node {
 	for {
 		switch e.K {
 		case "binary", "cond", "index", "selector", "slice", "call":
-			if needsParens(e.Kids[0]) {
+			if needsParens(e.Kids[0]) && !(e.K == "binary" && r.bare(e, 0)) {
 				return e // starts with "("
 			}
 			e = e.Kids[0]
@@ -51,6 +52,38 @@ func Render(block *Node) string {
 	r := &renderer{line: 1}
 	r.stmts(block.Kids)
 	return r.sb.String()
+}
+
+// RenderMin is Render with binary operands of binary operators parenthesised
+// only where the documented grouping (docs/tutorial.md: five levels, all left
+// associative) differs from the tree: the text then means the tree only if the
+// parser groups as documented.
+func RenderMin(block *Node) string {
+	r := &renderer{line: 1, min: true}
+	r.stmts(block.Kids)
+	return r.sb.String()
+}
+
+// binPrec: the documented precedence of the binary operators.
+var binPrec = map[string]int{
+	"*": 5, "/": 5, "%": 5, "<<": 5, ">>": 5, "&": 5, "&^": 5,
+	"+": 4, "-": 4, "|": 4, "^": 4,
+	"==": 3, "!=": 3, "<": 3, "<=": 3, ">": 3, ">=": 3,
+	"&&": 2, "||": 1,
+}
+
+// bare reports whether operand i (0 left, 1 right) of the binary node e is
+// itself a binary node that needs no parentheses.
+func (r *renderer) bare(e *Node, i int) bool {
+	k := e.Kids[i]
+	if !r.min || k.K != "binary" {
+		return false
+	}
+	pe, pk := binPrec[e.S], binPrec[k.S]
+	if pe == 0 || pk == 0 {
+		return false
+	}
+	return pk > pe || (i == 0 && pk == pe)
 }
 
 // RenderExpr renders one expression on one line.
@@ -114,7 +147,7 @@ func (r *renderer) stmt(s *Node) {
 		r.expr(s.Kids[0], false)
 		r.w(s.S)
 	case "exprstmt":
-		if lm := leftmost(s.Kids[0]); lm.K == "map" || lm.K == "func" {
+		if lm := r.leftmost(s.Kids[0]); lm.K == "map" || lm.K == "func" {
 			r.w("(")
 			r.expr(s.Kids[0], false)
 			r.w(")")
@@ -284,9 +317,9 @@ func (r *renderer) expr(e *Node, operand bool) {
 		r.w(e.S)
 		r.expr(e.Kids[0], true)
 	case "binary":
-		r.expr(e.Kids[0], true)
+		r.expr(e.Kids[0], !r.bare(e, 0))
 		r.w(" " + e.S + " ")
-		r.expr(e.Kids[1], true)
+		r.expr(e.Kids[1], !r.bare(e, 1))
 	case "cond":
 		r.expr(e.Kids[0], true)
 		r.w(" ? ")
